@@ -536,7 +536,10 @@ def reg_id(v) -> str:
     if isinstance(v, decimal.Decimal):
         if v.is_finite() and v == v.to_integral_value():
             return str(int(v)) if (v != 0 or not v.is_signed()) else "-0"
-        return format(v.normalize(), "f") if v.is_finite() else str(v)
+        if not v.is_finite():
+            return str(v)
+        s = format(v, "f")  # exact (normalize() would round to the context precision)
+        return s.rstrip("0").rstrip(".") if "." in s else s
     if isinstance(v, (bytes, bytearray)):
         return base64.b64encode(bytes(v)).decode()
     return str(v)
@@ -752,7 +755,31 @@ def g_value(t, v):
         return {g_scalar(a): g_value(vt, b) for a, b in v["v"]}
     if k == "ns":
         return Namespace(**{txt(a): g_value(t, b) for a, b in v["v"]})
-    return g_scalar(v)
+    py = g_scalar(v)
+    if k in ("int", "float", "str"):
+        r = _find_restricted(t, k)
+        if r is not None:
+            try:
+                return r(py)  # a value of a restricted type is an instance of that type (a sub-class of int / float / str)
+            except Exception:
+                pass
+    return py
+
+
+def _find_restricted(t, kind):
+    if t["c"] == "restr":
+        return g_restricted(t["p"][0]) if t["p"][1] == kind else None
+    if t["c"] in ("union", "list", "set", "tuple", "tuplee", "dict"):
+        for m in t["p"]:
+            r = _find_restricted(m, kind)
+            if r is not None:
+                return r
+    if t["c"] == "dc":
+        for _, ft, _ in t["p"]:
+            r = _find_restricted(ft, kind)
+            if r is not None:
+                return r
+    return None
 
 
 def a_float(x: float) -> dict:
@@ -1030,13 +1057,22 @@ def cfg_tree_py(shape, cfg):
             root = root.setdefault(n, {})
         root[path[-1]] = val
 
+    def from_default(e, v):
+        # a value of a registered type that IS the default stays the python object of the declaration (it is dumped without ever
+        # having been parsed); everything else is given in the config
+        return '"reg"' in json.dumps(v) and json.dumps(v, sort_keys=True) == json.dumps(e["d"], sort_keys=True)
+
     for e, v in zip(shape["top"], cfg["top"]):
+        if from_default(e, v):
+            continue
         put(d, [txt(n) for n in e["p"]], g_tree(v))
     if cfg["sel"]:
         name, entries = shape["subs"][cfg["sel"] - 1]
         d["subcommand"] = txt(name)
         d[txt(name)] = {}
         for e, v in zip(entries, cfg["sub"]):
+            if from_default(e, v):
+                continue
             put(d[txt(name)], [txt(n) for n in e["p"]], g_tree(v))
     return d
 
@@ -1083,6 +1119,9 @@ def run_cfg_case(args):
     if json.dumps(seen, sort_keys=True) != json.dumps(cfg, sort_keys=True):
         out["note"] = "parse_object did not store the intended configuration: " + json.dumps(seen)[:300]
         return out
+    # dump(skip_default=True) serialises the parser's DEFAULTS, and rewrites in place the lists nested in a tuple default, which the
+    # configuration shares (C08): keep a private copy of the configuration and use a fresh parser for every dump
+    ns = copy.deepcopy(ns)
 
     def record(fmt, sn, sd, route, base_ns, base_cfg, doc, thunk):
         try:
@@ -1098,7 +1137,7 @@ def run_cfg_case(args):
             for f in ("yaml", "json", "json_indented"):
                 sf = "yaml" if f == "yaml" else "json"
                 try:
-                    text = p.dump(copy.deepcopy(ns), format=f, skip_none=sn, skip_default=sd)
+                    text = build_parser(shape, style).dump(copy.deepcopy(ns), format=f, skip_none=sn, skip_default=sd)
                 except Exception as ex:
                     out["obs"].append({"sh": sh, "cfg": cfg, "fmt": sf, "sn": sn, "sd": sd, "route": "string/" + f, "doc": a_error("dump", ex), "re": a_error("dump", ex), "same": False})
                     continue
@@ -1480,7 +1519,9 @@ def _strategies():
         T_("dict", [T_("str"), T_("list", [T_("union", [r, T_("none")])])])]))
 
     def extend(child):
-        nonunion = child.filter(lambda t: t["c"] not in ("union", "none"))
+        # registered / restricted types are Union members only as Optional[T] (reg_shapes): next to another member their serializer
+        # accepts foreign values (float('1e3'), str(3)), the class of finding union-enum-member-serialises-anything, kept out here
+        nonunion = child.filter(lambda t: t["c"] not in ("union", "none") and '"reg"' not in json.dumps(t) and '"restr"' not in json.dumps(t))
         return st.one_of(
             reg_shapes,
             nonunion.map(lambda t: T_("union", [t, T_("none")])),
@@ -1603,7 +1644,10 @@ def hypothesis_shapes(n: int):
                 continue
             used.add(tuple(path))
             t = draw(entry_t)
-            out.append({"p": [syms(x) for x in path], "t": t, "din": draw(st.one_of(st.just(None), inputs(t))), "vals": draw(st.lists(inputs(t), min_size=1, max_size=3))})
+            tj = json.dumps(t)
+            shared_twice = '"reg"' in tj and ('"tuple"' in tj or '"tuplee"' in tj)  # see design.d/C01.md 3: such a default is serialised twice by --print_config=skip_default (C08)
+            din = st.just(None) if shared_twice else st.one_of(st.just(None), inputs(t))
+            out.append({"p": [syms(x) for x in path], "t": t, "din": draw(din), "vals": draw(st.lists(inputs(t), min_size=1, max_size=3))})
         return out
 
     @st.composite
